@@ -27,12 +27,12 @@ EPS = 1e-9
 
 
 class Ctx:
-    def __init__(self, version, op):
+    def __init__(self, version, op, loop=None):
         import bellows.types as t
 
         self.t = t
         self.version, self.op = version, op
-        self.loop = VLoop().enter()
+        self.loop = loop or VLoop().enter()
         self.app, self.ezsp, self.gw, self.ncp = appenv.make_app(self.loop, version)
         self.gw.on_send = None           # frames are answered by hand
         self.cls = type(self.ezsp._protocol)
@@ -346,6 +346,50 @@ def run_two_scans(version, order):
     return viol
 
 
+def run_isolation(version, op):
+    """Two radios in one process: the event that would complete radio A's operation is delivered to radio B only.  A must keep
+    waiting (and time out); B must not keep anything.  State shared between EZSP objects (class-level listener tables) shows here."""
+    viol = []
+    a = Ctx(version, op)
+    b = Ctx(version, op, loop=a.loop)
+    try:
+        task = start_op(a)
+        seq, cmd = a.last_request()
+        a.rx(a.frame(cmd, [a.status("ok")], seq))
+        a.answered = seq
+        if op == "scan":
+            b.rx(b.frame("energyScanResultHandler", [12, -40], 0x33, callback=True))
+            b.rx(b.frame("scanCompleteHandler", [26, b.status("ok")], 0x33, callback=True))
+        else:
+            b.rx(b.frame("stackStatusHandler", [b.status(MATCH[op])], 0x33, callback=True))
+        a.loop.settle()
+        label = f"{op} v{version} isolation"
+        if task.done():
+            viol.append(f"{label}: the operation on one EZSP object ended ({outcome(task)}) on an event that only another EZSP object received")
+        else:
+            if op == "scan":
+                a.rx(a.frame("energyScanResultHandler", [13, -41], seq, callback=True))
+                a.rx(a.frame("scanCompleteHandler", [26, a.status("ok")], seq, callback=True))
+                if not task.done() or outcome(task) != ("ok",) or [list(map(int, r)) for r in task.result()] != [[13, -41]]:
+                    viol.append(f"{label}: the scan did not return exactly its own results after another EZSP object received results: "
+                                f"{task.result() if task.done() and not task.cancelled() and task.exception() is None else outcome(task) if task.done() else 'pending'}")
+            else:
+                a.loop.fire_timers()
+                a.loop.settle()
+                if not task.done() or outcome(task)[0] != "timeout":
+                    viol.append(f"{label}: expected a timeout, got {outcome(task) if task.done() else 'pending'}")
+        if not task.done():
+            task.cancel()
+            a.loop.settle()
+        for who, c in (("the operating", a), ("the other", b)):
+            lk = leaks(c)
+            if lk:
+                viol.append(f"{label}: {who} EZSP object: {lk}")
+    finally:
+        a.close()
+    return viol
+
+
 def outcome(task):
     if task.cancelled():
         return ("cancelled",)
@@ -422,6 +466,13 @@ def main(tier: str) -> int:
             samples.append(sample)
         for key, msg, rp in viol:
             rep.add_violation(key, msg, rp)
+    n_iso = 0
+    for v in versions:
+        for op in ("form", "leave", "ensure", "scan"):
+            n_iso += 1
+            for msg in run_isolation(v, op):
+                rep.add_violation(vkey(op, msg), msg, {"world": "c17", "kind": "isolation", "version": v, "op": op})
+    total += n_iso
     if total < 5000 or len(sigs) < 30:
         raise explore.InternalError(f"C17 vacuous: sequences={total} signatures={len(sigs)}")
     rep.coverage = {
@@ -446,6 +497,11 @@ def main(tier: str) -> int:
 
 
 def replay(data) -> int:
+    if data.get("kind") == "isolation":
+        v = run_isolation(data["version"], data["op"])
+        for m in v:
+            print("VIOLATION:", m)
+        return 1 if v else 0
     if data["op"] == "two-scans":
         v = run_two_scans(data["version"], tuple(data["events"]))
         for m in v:
